@@ -266,7 +266,7 @@ void unary(W const& a)
     // cnl::to_chars on an *unsigned* multi-limb wide_integer does not compile (value / int base has no
     // mixed-signedness operator in uintwide_t): not instantiable, left out
     if constexpr (WI<W>::is_signed)
-    if (!(a < -L::max()) && !(a > L::max())) {  // cnl::to_chars: documented domain is the numeric_limits range
+    if (!(a < L::lowest()) && !(a > L::max())) {  // cnl::to_chars: the numeric_limits range, lowest() = -2^Digits included
         printf("C10 chars %s ", tn<W>().c_str());
         prhex(a);
         fputs(" => ", stdout);
